@@ -42,6 +42,12 @@ func c17Audit3(r *Report, kidAlg, pj, pjs, dp, cis, mw, sigV *ssa.Function) {
 	r.ArgIs("C17.alg-fits-key.parsejws.the-resolved-key", pjs, fit, 1, DerivedOrIface(CallV(DynParam("f"), 0)), 1)
 	r.Gate(Gate{ID: "C17.alg-fits-key.dpop", Fn: dp, Effect: CallEffect(Fn(jwtPkg, "", "ParseString")), Check: ErrCheck(fit)})
 	r.Gate(Gate{ID: "C17.alg-fits-key.dag", Fn: sigV, Effect: CallEffect(Fn(jwsPkg, "", "Verify")), Check: ErrCheck(fit)})
+	// ... and it is the token's own algorithm (the one the verification will run with) that is compared with the key
+	algOf := func(c Callee, idx int) VPat { return DerivedOrIface(VPat{Desc: "the token's alg", M: func(v ssa.Value) bool { return CallV(c, idx).M(StripConv(v)) }}) }
+	r.ArgIs("C17.alg-fits-key.parsejwt.the-token-alg", pj, fit, 0, algOf(Fn("crypto", "", "JWTKidAlg"), 1), 1)
+	r.ArgIs("C17.alg-fits-key.dpop.the-token-alg", dp, fit, 0, algOf(Fn(jwsPkg, "Headers", "Algorithm"), -1), 1)
+	r.ArgIs("C17.alg-fits-key.dag.the-token-alg", sigV, fit, 0, algOf(p.FnOrImpl("network/dag", "Signable", "SigningAlgorithm"), -1), 1)
+	r.ArgIs("C17.alg-fits-key.tokenv2.the-token-alg", mw, fit, 0, algOf(Fn("http/tokenV2", "", "credentialAlgorithm"), -1), 1)
 	r.Gate(Gate{ID: "C17.alg-fits-key.tokenv2", Fn: mw, Effect: CallEffect(Fn(jwtPkg, "", "ParseString")), Check: ErrCheck(fit),
 		Alt: []Check{CallCheck(Fn("github.com/lestrrat-go/jwx/v2/jwk", "Set", "Key"), 1, IsFalse)}, Note: "an authorised-keys entry without a key verifies nothing"})
 	// the rule itself: one algorithm per curve, RSA algorithms for RSA keys, EdDSA for Ed25519
